@@ -927,6 +927,10 @@ def mc_tasks(ctx):
                   "CHECK_DEADLOCK", "CONSTRAINT TrackW\nPOSTCONDITION WitnessesSeen\nCHECK_DEADLOCK"), "witnesses", 1))
     big = ("<=3 requests", "<=4 requests", "all chunkings, <=3", "full universe", "witnesses", "byte-fed, <=3")
     T.sort(key=lambda t: 0 if any(b in t[0] for b in big) else 1)          # long runs first (stable)
+    if q:
+        # small models: more TLC workers only add contention (measured: 41 k states, 4 workers 6.5 s, 16 workers 20 s),
+        # and the acceptors and the recording workers need the cores at the same time
+        T = [(a, b, c, d, min(w, 3)) for a, b, c, d, w in T]
     return T
 
 
@@ -1201,7 +1205,7 @@ def main(ctx):
     mcres = {}
     if cap:
         tasks = [(a, b, c, d, min(w, cap)) for a, b, c, d, w in tasks]
-    ths = run_mc(ctx, tasks, mcres, par=1 if cap else ctx.pick(5, 3))
+    ths = run_mc(ctx, tasks, mcres, par=1 if cap else ctx.pick(4, 3))
     # (T1) framing
     frecs, srecs = [], []
     deferred, box, vths = [], {"frej": [], "srej": []}, []
